@@ -220,19 +220,22 @@ pub fn report_failure(rep_out: &mut Report, t: &Ty, v: &Val, rep: Rep, rt: &Rt, 
     let dt = build_type(&mt);
     let fin = round_trip(dt, &mt, &mv, rep);
     let scope = ver_name(rep);
-    let sig = if fam.starts_with("de_panic|") || fam.starts_with("ser_panic|") {
-        // the panic site identifies the root cause
-        let ver = if rep.ver() == refenc::Ver::X1 { "XCDR1" } else { "XCDR2" };
-        format!("roundtrip|{}|rep={}", fam, ver)
+    let feats = crate::classify::features(&mt, &mv);
+    let ver = crate::classify::ver_name(rep.ver());
+    let unclassified = || format!("unclassified|shape={}|val={}", root_class(&mt), value_class(&mt, &mv));
+    let sig = if let Some(p) = fam.strip_prefix("de_panic|") {
+        format!("roundtrip|de_panic|rep={}|cause={}", ver, crate::classify::panic_cause(p))
+    } else if let Some(p) = fam.strip_prefix("ser_panic|") {
+        format!("roundtrip|ser_panic|rep={}|cause={}", ver, crate::classify::panic_cause(p))
+    } else if let Some(x) = fam.strip_prefix("encapsulation|") {
+        format!("roundtrip|encapsulation|rep={}|cause={}", ver, x)
     } else {
-        format!(
-            "roundtrip|{}|rep={}|shape={}|val={}",
-            fam,
-            scope,
-            root_class(&mt),
-            value_class(&mt, &mv)
-        )
+        let cause = crate::classify::decode_cause(&feats, rep.ver(), crate::classify::Mode::RoundTrip)
+            .map(|c| c.to_string())
+            .unwrap_or_else(unclassified);
+        format!("roundtrip|{}|rep={}|cause={}", fam, ver, cause)
     };
+    let _ = scope;
     let what = format!(
         "{} {}: {} ; min shape {} ; type {} value {} bytes {}",
         rep.name(),
@@ -253,6 +256,43 @@ pub fn report_failure(rep_out: &mut Report, t: &Ty, v: &Val, rep: Rep, rt: &Rt, 
         .set("original_type", ty_to_json(t))
         .set("original_value", val_to_json(t, v));
     rep_out.violation(sig, what, replay);
+}
+
+/// Cases of classes the random generator reaches only rarely (ids >= 2^14, members > 64 KiB), so that
+/// their signatures show at every seed.
+pub fn canonical_rare_cases() -> Vec<(Ty, Val)> {
+    use std::rc::Rc;
+    let m = |id: u32, mu: bool, ty: Ty| Member {
+        name: "m".into(),
+        id,
+        ty,
+        key: false,
+        optional: false,
+        must_understand: mu,
+    };
+    let st = |members: Vec<Member>| {
+        Ty::Struct(Rc::new(StructTy {
+            name: "Canon".into(),
+            ext: Ext::Mutable,
+            members,
+        }))
+    };
+    vec![
+        (st(vec![m(0x4000, false, Ty::Prim(Prim::U8))]), Val::Struct(vec![Some(Val::U8(1))])),
+        (st(vec![m(0xC000, true, Ty::Prim(Prim::U8))]), Val::Struct(vec![Some(Val::U8(1))])),
+        (st(vec![m(0x12345, false, Ty::Prim(Prim::U8))]), Val::Struct(vec![Some(Val::U8(1))])),
+        (
+            st(vec![m(
+                0,
+                false,
+                Ty::Seq {
+                    elem: Box::new(Ty::Prim(Prim::U8)),
+                    bound: 0,
+                },
+            )]),
+            Val::Struct(vec![Some(Val::Bytes(vec![7; 70000]))]),
+        ),
+    ]
 }
 
 pub const SHRINK_FLAG: u64 = 1 << 32;
@@ -286,6 +326,19 @@ fn child_units(a: &Cli, from: u64, to: u64, skip: &[(u64, u64)], journal: &mut J
     let mut rep = Report::new("C09");
     let mut shrunk: HashSet<u64> = HashSet::new();
     let mut shrinks_left = 8;
+    if a.shard == 0 && from == 0 {
+        for (t, v) in canonical_rare_cases() {
+            let dt = build_type(&t);
+            for r in ALL_REPS {
+                let rt = round_trip(dt, &t, &v, r);
+                rep.eval();
+                rep.stat("canonical_rare_cases", 1);
+                if rt.key != "ok" && !rt.harness_problem {
+                    report_failure(&mut rep, &t, &v, r, &rt, 600);
+                }
+            }
+        }
+    }
     for unit in from..to {
         flush_partial(&rep, &a.out, unit);
         let mut g = unit_gen(a.seed, a.shard, unit, 0xC09, GenCfg::full());
@@ -355,6 +408,21 @@ fn child_units(a: &Cli, from: u64, to: u64, skip: &[(u64, u64)], journal: &mut J
     rep
 }
 
+pub fn death_kind(death_class: &str) -> &'static str {
+    if death_class.starts_with("abort:allocation") {
+        "de_abort_alloc"
+    } else if death_class.starts_with("hang") {
+        "de_hang"
+    } else {
+        "de_abort_signal"
+    }
+}
+
+/// deaths are consequences of one of the mis-parses named under `value_not_restored`
+pub fn death_sig(death_class: &str, ver: &str) -> String {
+    format!("roundtrip|{}|rep={}|cause=misparse_consequence", death_kind(death_class), ver)
+}
+
 /// A case that kills the process (allocation of a mis-parsed length, CPU hang). The root cause is one
 /// of the mis-parses reported under `value_not_restored`; the death itself gets a coarse signature
 /// and a witness minimised with a few child probes.
@@ -369,7 +437,7 @@ fn report_death(rep: &mut Report, dir: &str, t: &Ty, v: &Val, r: Rep, death_clas
         refenc::Ver::X1 => "XCDR1",
         refenc::Ver::X2 => "XCDR2",
     };
-    let sig = format!("roundtrip|{}|rep={}", death_class, ver);
+    let sig = death_sig(death_class, ver);
     let what = format!(
         "{} {}: process died in deserialize(serialize(v)): {} ; type {} value {}",
         r.name(),
@@ -469,7 +537,7 @@ pub fn run(a: &Cli) -> Report {
         rep.eval();
         rep.stat(&format!("outcome:{}", death.class()), 1);
         rep.nontrivial(fnv_str(&format!("{}|{}|{}", shape_class(&t), r.name(), death.class())));
-        let sig = format!("roundtrip|{}|rep={}", death.class(), if r.ver() == refenc::Ver::X1 { "XCDR1" } else { "XCDR2" });
+        let sig = death_sig(&death.class(), if r.ver() == refenc::Ver::X1 { "XCDR1" } else { "XCDR2" });
         let seen = rep.violation_counts.get(&sig).copied().unwrap_or(0);
         // minimise the first two witnesses of a signature with child probes, the rest as found
         let probes = if seen >= 2 {
